@@ -186,7 +186,12 @@ int main(){
         }
         else if(op == "dump" && ts.size() > 1 && ts[1] == "tsmvalues"){ dumpValues(*cs.tree); }
         else if(op == "exec" && ts.size() > 1 && ts[1] == "tsm"){
-            std::unique_ptr<TbfAlgorithmTsm<RealType, Kernel, SpaceIndex>> algo(new TbfAlgorithmTsm<RealType, Kernel, SpaceIndex>(*cs.config, kv(ts, "upper", 2)));
+            const long ctor = kv(ts, "ctor", 0);       // as in h_core: 1 (configuration, kernel), 2 (configuration), 3 (configuration, kernel, upper)
+            std::unique_ptr<TbfAlgorithmTsm<RealType, Kernel, SpaceIndex>> algo;
+            if(ctor == 1){ std::unique_ptr<Kernel> k(new Kernel(*cs.config)); algo.reset(new TbfAlgorithmTsm<RealType, Kernel, SpaceIndex>(*cs.config, *k)); }
+            else if(ctor == 2) algo.reset(new TbfAlgorithmTsm<RealType, Kernel, SpaceIndex>(*cs.config));
+            else if(ctor == 3){ std::unique_ptr<Kernel> k(new Kernel(*cs.config)); algo.reset(new TbfAlgorithmTsm<RealType, Kernel, SpaceIndex>(*cs.config, *k, kv(ts, "upper", 2))); }
+            else algo.reset(new TbfAlgorithmTsm<RealType, Kernel, SpaceIndex>(*cs.config, kv(ts, "upper", 2)));
             algo->execute(*cs.tree, int(kv(ts, "flags", 63)));
             flushLog();
         }
